@@ -99,7 +99,7 @@ Lemma chain_go_fuel_indep f1 : forall f2 t fat i l1 l2,
   chain_go f1 t fat i = (l1, true) -> chain_go f2 t fat i = (l2, true) -> l1 = l2.
 Proof.
   induction f1 as [|g1 IH]; intros f2 t fat i l1 l2 H1 H2; [discriminate|]. destruct f2 as [|g2]; [discriminate|].
-  cbn [chain_go] in H1, H2. destruct ((i <? 0) || (lenZ fat <=? i)); [discriminate|]. cbv zeta in H1, H2.
+  cbn [chain_go] in H1, H2. destruct ((i <? Gen.MIN_DATA_CLUSTER t) || (lenZ fat <=? i)); [discriminate|]. cbv zeta in H1, H2.
   destruct (is_data t (nthZ fat i)).
   - destruct (chain_go g1 t fat (nthZ fat i)) as [r1 o1] eqn:E1. destruct (chain_go g2 t fat (nthZ fat i)) as [r2 o2] eqn:E2.
     inversion H1; inversion H2; subst. f_equal. eapply IH; eassumption.
@@ -109,7 +109,7 @@ Lemma chain_go_suffix f : forall t fat i l, chain_go f t fat i = (l, true) ->
   forall k, (k < length l)%nat -> exists f', chain_go f' t fat (nth k l 0) = (skipn k l, true).
 Proof.
   induction f as [|g IH]; intros t fat i l H k Hk; [discriminate|].
-  pose proof H as H0. cbn [chain_go] in H. destruct ((i <? 0) || (lenZ fat <=? i)); [discriminate|]. cbv zeta in H.
+  pose proof H as H0. cbn [chain_go] in H. destruct ((i <? Gen.MIN_DATA_CLUSTER t) || (lenZ fat <=? i)); [discriminate|]. cbv zeta in H.
   destruct (is_data t (nthZ fat i)).
   - destruct (chain_go g t fat (nthZ fat i)) as [r o] eqn:E. inversion H; subst. destruct k as [|j].
     + exists (S g). exact H0.
@@ -120,7 +120,7 @@ Qed.
 Theorem chain_go_nodup f : forall t fat i l, chain_go f t fat i = (l, true) -> NoDup l.
 Proof.
   induction f as [|g IH]; intros t fat i l H; [discriminate|].
-  pose proof H as H0. cbn [chain_go] in H. destruct ((i <? 0) || (lenZ fat <=? i)); [discriminate|]. cbv zeta in H.
+  pose proof H as H0. cbn [chain_go] in H. destruct ((i <? Gen.MIN_DATA_CLUSTER t) || (lenZ fat <=? i)); [discriminate|]. cbv zeta in H.
   destruct (is_data t (nthZ fat i)).
   - destruct (chain_go g t fat (nthZ fat i)) as [r o] eqn:E. inversion H; subst. constructor; [|eapply IH; exact E].
     intros Hin. destruct (In_nth r i 0 Hin) as (k & Hk & Hnth).
